@@ -172,7 +172,12 @@ func runC16(c *Ctx) {
 	xa := w.OpenXA()
 	rng := NewRng(c.Seed)
 	n := c.Budget(200, 6000)
-	for i := 0; i < n; i++ {
+	// statements that touch exactly / about a multiple of the image queries' IN-list size (1000 keys)
+	bigs := []int{1000, 1001}
+	if c.Tier == "thorough" {
+		bigs = []int{999, 1000, 1001, 2000, 2001, 3000}
+	}
+	for i := 0; i < n+len(bigs); i++ {
 		r := rng.Fork()
 		cid := fmt.Sprintf("c16-%d", i)
 		o := ATGenOpts{NullableVals: r.Chance(40), StrPK: r.Chance(25), AllowFindings: r.Chance(15)}
@@ -180,6 +185,16 @@ func runC16(c *Ctx) {
 		sc := cs.Schema
 		if len(cs.Rows) < 2 {
 			cs.Rows = genRows(r, sc, 2+r.Intn(4))
+		}
+		big := 0
+		if i >= n {
+			big = bigs[i-n]
+			sc = &ATSchema{Table: w.NewTableName("big"), Cols: []ATCol{{Name: "id", Typ: 'i'}, {Name: "c1", Typ: 'i'}}, PK: []int{0}}
+			cs.Schema = sc
+			cs.Rows = nil
+			for k := 0; k < big; k++ {
+				cs.Rows = append(cs.Rows, []ATVal{{K: 'i', I: int64(k + 1)}, {K: 'i', I: int64(k % 7)}})
+			}
 		}
 		taken := map[string]bool{}
 		for _, row := range cs.Rows {
@@ -190,12 +205,22 @@ func runC16(c *Ctx) {
 			taken[k] = true
 		}
 		mode := []string{"at-outside", "at-outside", "at-inside", "at-inside", "xa-outside"}[r.Intn(5)]
+		// the target driver declines the fast path for statements with arguments (go-sql-driver/mysql
+		// without interpolateParams=true): database/sql falls back to prepare + execute
+		skipFast := mode != "at-inside" && r.Chance(35)
 		// ---- the program
 		var steps []c16Step
 		var classes []string
 		modelable := true
 		inTx := false
 		nSteps := 2 + r.Intn(5)
+		if big > 0 {
+			mode = "at-inside"
+			skipFast = false
+			nSteps = 0
+			steps = append(steps, c16Step{kind: "exec", st: &ATStmt{Kind: 'U', Sets: []ATSet{{Col: 1, Plus: 1, E: &ATExpr{K: 'l', Val: ATVal{K: 'i', I: 1}}}}, Where: &ATCond{Op: "T"}}})
+			steps = append(steps, c16Step{kind: "exec", st: &ATStmt{Kind: 'D', Where: &ATCond{Op: "cmp:m", E: []*ATExpr{{K: 'c', Col: 0}, {K: 'l', Val: ATVal{K: 'i', I: int64(big)}}}}}})
+		}
 		names := make([]string, len(sc.Cols))
 		for k, col := range sc.Cols {
 			names[k] = col.Name
@@ -288,6 +313,7 @@ func runC16(c *Ctx) {
 				w.Eng.InsertRows(tn, toMemRow(row))
 			}
 		}
+		w.Eng.SetSkipFastPath(skipFast)
 		bare := runC16Program(context.Background(), w, w.Bare, sc, tB, steps)
 		var prox *c16Run
 		switch mode {
@@ -301,6 +327,7 @@ func runC16(c *Ctx) {
 				return nil
 			})
 		}
+		w.Eng.SetSkipFastPath(false)
 		// ---- observation for the model: results of the modelled steps and the final table
 		var mtoks, mobs []string
 		for k, s := range steps {
@@ -387,7 +414,13 @@ func runC16(c *Ctx) {
 			tag += " known=" + strings.Join(uniqStrings(classes), ",")
 		}
 		c.Out.Tag(cid, tag)
+		if big > 0 {
+			c.Out.Count(fmt.Sprintf("big.%d", big))
+		}
 		c.Out.Count("mode." + mode)
+		if skipFast {
+			c.Out.Count("target-driver-declines-fast-path")
+		}
 		for _, s := range steps {
 			c.Out.Count("step." + s.kind)
 		}
